@@ -2,11 +2,17 @@ import ADModel
 /-!
 # ADProofs.NewickProofs — the textual tree encoding round-trips (property C09)
 
+Main results (root namespace; all auxiliary material lives in `namespace NewickPf`):
+
 * `digits_roundtrip`, `toString_nat_digits` : decimal identifiers read back
 * `parseDescent_print` : the reference recursive-descent parser inverts `printForest` on every
   forest whose height texts are well formed (`GoodL`)
 * `printForest_injective` : the writer is injective on such forests
-* `fmt3_good` : `%.3f` texts are well formed, hence `parseDescent_toNewick`
+* `fmt3_good`, `fmt3_no_colon` : `%.3f` texts are well formed; hence `parseDescent_toNewick`
+* `parseImpl_print` : the step-by-step model of `parse_newick` (depth scan, per-level collection of
+  parenthesis pairs, right-to-left excision, dict literal, `collect`) also inverts `printForest`
+  when, in addition, all identifiers are pairwise distinct and no height text contains `':'`;
+  hence `parseImpl_toNewick`, and the two readers agree on everything the writer produces
 -/
 
 /-! ## well-formed height texts -/
@@ -21,6 +27,8 @@ def GoodL : List NTree → Prop
   | t :: ts => GoodT t ∧ GoodL ts
 end
 
+
+namespace NewickPf
 
 /-! ## 1. decimal identifiers -/
 
@@ -37,12 +45,12 @@ theorem digitsFold_of_digits (l : List Char) (hl : ∀ c ∈ l, c.isDigit = true
 theorem toString_nat_toList (n : Nat) : (toString n).toList = Nat.toDigits 10 n := by
   simp
 
-theorem toString_nat_digits (n : Nat) :
+theorem _root_.toString_nat_digits (n : Nat) :
     (∀ c ∈ (toString n).toList, c.isDigit = true) ∧ (toString n).toList ≠ [] := by
   rw [toString_nat_toList]
   exact ⟨fun c hc => Nat.isDigit_of_mem_toDigits (by decide) (by decide) hc, Nat.toDigits_ne_nil⟩
 
-theorem digits_roundtrip (n : Nat) : digitsToNat? (toString n).toList = some n := by
+theorem _root_.digits_roundtrip (n : Nat) : digitsToNat? (toString n).toList = some n := by
   have h := toString_nat_digits n
   unfold digitsToNat?
   rw [if_neg (by simp), digitsFold_of_digits _ h.1, toString_nat_toList,
@@ -179,7 +187,7 @@ theorem printL_length_pos (t : NTree) (ts : List NTree) :
   | nil => rw [NTree.printL]; exact print_length_pos t
   | cons u ts => rw [printL_cons2]; simp only [List.length_append, List.length_cons]; omega
 
-theorem parseDescent_print (ts : List NTree) (h : GoodL ts) :
+theorem _root_.parseDescent_print (ts : List NTree) (h : GoodL ts) :
     parseDescent (printForest ts) = some ts := by
   unfold parseDescent
   rw [printForest_toList]
@@ -202,7 +210,7 @@ theorem parseDescent_print (ts : List NTree) (h : GoodL ts) :
     · rename_i hno
       exact (hno _ rfl).elim
 
-theorem printForest_injective (a b : List NTree) (ha : GoodL a) (hb : GoodL b)
+theorem _root_.printForest_injective (a b : List NTree) (ha : GoodL a) (hb : GoodL b)
     (h : printForest a = printForest b) : a = b := by
   have h1 := parseDescent_print a ha
   rw [h, parseDescent_print b hb] at h1
@@ -262,13 +270,13 @@ theorem FmtChar.ne {c : Char} (h : FmtChar c) :
   · decide
   · decide
 
-theorem fmt3_good (k : Int) (fb : Nat) : GoodH (fmt3 k fb) := by
+theorem _root_.fmt3_good (k : Int) (fb : Nat) : GoodH (fmt3 k fb) := by
   have h := fmt3_chars k fb
   refine ⟨h.1, fun c hc => ?_⟩
   have := (h.2 c hc).ne
   exact ⟨this.1, this.2.1, this.2.2.1, this.2.2.2.1⟩
 
-theorem fmt3_no_colon (k : Int) (fb : Nat) : ∀ c ∈ (fmt3 k fb).toList, c ≠ ':' :=
+theorem _root_.fmt3_no_colon (k : Int) (fb : Nat) : ∀ c ∈ (fmt3 k fb).toList, c ≠ ':' :=
   fun c hc => ((fmt3_chars k fb).2 c hc).ne.2.2.2.2
 
 mutual
@@ -284,6 +292,1201 @@ theorem toNTreeL_good (val : Nat → Int) (fb : Nat) : (ts : List Tree) → Good
 end
 
 /-- the text written for any forest of structures reads back as the same printable forest -/
-theorem parseDescent_toNewick (val : Nat → Int) (fb : Nat) (f : List Tree) :
+theorem _root_.parseDescent_toNewick (val : Nat → Int) (fb : Nat) (f : List Tree) :
     parseDescent (toNewick val fb f) = some (toNTreeL val fb f) :=
   parseDescent_print _ (toNTreeL_good val fb f)
+
+/-! # 5. the step-by-step model of `parse_newick` -/
+
+/-! ## printing on `List Char` -/
+
+/-- comma-separated concatenation -/
+def joinC : List (List Char) → List Char
+  | [] => []
+  | [x] => x
+  | x :: y :: r => x ++ ',' :: joinC (y :: r)
+
+/-- `id:height` -/
+def lab (i : Nat) (h : String) : List Char := (toString i).toList ++ ':' :: h.toList
+
+/-- the characters of `print t` -/
+def P (t : NTree) : List Char := (NTree.print t).toList
+
+theorem printL_toList (ts : List NTree) : (NTree.printL ts).toList = joinC (ts.map P) := by
+  induction ts with
+  | nil => simp [NTree.printL, joinC]
+  | cons t ts ih =>
+    cases ts with
+    | nil => simp [NTree.printL, joinC, P]
+    | cons u ts => rw [printL_cons2, ih]; simp [joinC, P]
+
+theorem P_node (i : Nat) (h : String) (ks : List NTree) :
+    P (.node i h ks) = (if ks = [] then [] else '(' :: (joinC (ks.map P) ++ [')'])) ++ lab i h := by
+  rw [P, print_toList, printL_toList]
+  cases ks <;> simp [lab]
+
+theorem P_leaf (i : Nat) (h : String) : P (.node i h []) = lab i h := by
+  simp [P_node]
+
+theorem P_kids (i : Nat) (h : String) (ks : List NTree) (hk : ks ≠ []) :
+    P (.node i h ks) = '(' :: (joinC (ks.map P) ++ ')' :: lab i h) := by
+  simp [P_node, hk]
+
+theorem printForest_eq (ts : List NTree) :
+    (printForest ts).toList = '(' :: (joinC (ts.map P) ++ [')', ';']) := by
+  rw [printForest_toList, printL_toList]
+
+theorem joinC_cons2 (x y : List Char) (r : List (List Char)) :
+    joinC (x :: y :: r) = x ++ ',' :: joinC (y :: r) := rfl
+
+theorem joinC_cons_ne (x : List Char) (r : List (List Char)) (h : r ≠ []) :
+    joinC (x :: r) = x ++ ',' :: joinC r := by
+  cases r with
+  | nil => exact absurd rfl h
+  | cons y r => rfl
+
+/-! ## truncation -/
+
+/-- keep `d` levels of children -/
+def cut : Nat → NTree → NTree
+  | 0, .node i h _ => .node i h []
+  | d + 1, .node i h ks => .node i h (ks.map (cut d))
+
+/-- the children dict of a branch -/
+def dictOf (ks : List NTree) : List (Nat × String) := ks.map fun k => (k.id, k.height)
+
+theorem cut_id (d : Nat) (t : NTree) : (cut d t).id = t.id := by
+  cases t; cases d <;> rfl
+theorem cut_height (d : Nat) (t : NTree) : (cut d t).height = t.height := by
+  cases t; cases d <;> rfl
+
+theorem dictOf_cut (d : Nat) (ks : List NTree) : dictOf (ks.map (cut d)) = dictOf ks := by
+  simp [dictOf, cut_id, cut_height]
+
+theorem P_cut0 (t : NTree) : P (cut 0 t) = lab t.id t.height := by
+  cases t; simp [cut, P_leaf, NTree.id, NTree.height]
+
+/-! ## predicates on all nodes -/
+mutual
+def AllT (p : NTree → Prop) : NTree → Prop
+  | .node i h ks => p (.node i h ks) ∧ AllL p ks
+def AllL (p : NTree → Prop) : List NTree → Prop
+  | [] => True
+  | t :: ts => AllT p t ∧ AllL p ts
+end
+
+theorem AllL_iff (p : NTree → Prop) (ks : List NTree) : AllL p ks ↔ ∀ k ∈ ks, AllT p k := by
+  induction ks with
+  | nil => simp [AllL]
+  | cons t ts ih => simp [AllL, ih]
+
+theorem AllT_node (p : NTree → Prop) (i : Nat) (h : String) (ks : List NTree) :
+    AllT p (.node i h ks) ↔ p (.node i h ks) ∧ ∀ k ∈ ks, AllT p k := by
+  rw [AllT, AllL_iff]
+
+theorem AllT_self (p : NTree → Prop) (t : NTree) (h : AllT p t) : p t := by
+  cases t; exact ((AllT_node ..).1 h).1
+
+/-- node-local well-formedness used by the level-by-level reader -/
+def WFn (n : NTree) : Prop :=
+  GoodH n.height ∧ (∀ c ∈ n.height.toList, c ≠ ':') ∧ (n.kids.map NTree.id).Nodup
+
+/-! ## flat text -/
+
+def Flat (s : List Char) : Prop := ∀ c ∈ s, c ≠ '(' ∧ c ≠ ')'
+
+theorem Flat_append {a b : List Char} : Flat (a ++ b) ↔ Flat a ∧ Flat b := by
+  simp only [Flat, List.mem_append]
+  constructor
+  · intro h; exact ⟨fun c hc => h c (Or.inl hc), fun c hc => h c (Or.inr hc)⟩
+  · rintro ⟨h1, h2⟩ c (hc | hc); exact h1 c hc; exact h2 c hc
+
+theorem Flat_cons {a : Char} {b : List Char} : Flat (a :: b) ↔ (a ≠ '(' ∧ a ≠ ')') ∧ Flat b := by
+  simp [Flat]
+
+theorem Flat_digits (i : Nat) : Flat (toString i).toList := by
+  intro c hc
+  have := (toString_nat_digits i).1 c hc
+  constructor <;> (rintro rfl; revert this; decide)
+
+theorem Flat_lab (i : Nat) (h : String) (hh : GoodH h) : Flat (lab i h) := by
+  rw [lab, Flat_append, Flat_cons]
+  refine ⟨Flat_digits i, by decide, fun c hc => ?_⟩
+  have := hh.2 c hc
+  exact ⟨this.2.2.1, this.2.1⟩
+
+theorem Flat_joinC (xs : List (List Char)) (h : ∀ x ∈ xs, Flat x) : Flat (joinC xs) := by
+  induction xs with
+  | nil => intro c hc; simp [joinC] at hc
+  | cons x r ih =>
+    cases r with
+    | nil => simpa [joinC] using h x (by simp)
+    | cons y r =>
+      rw [joinC_cons2, Flat_append, Flat_cons]
+      exact ⟨h x (by simp), by decide, ih (fun z hz => h z (by simp [hz]))⟩
+
+/-! ## the depth scan for pairs -/
+
+def scanStep (level : Nat) (st : ScanSt) (c : Char) : ScanSt :=
+  let st := if c = '(' then
+      { st with cur := st.cur + 1, start := if st.cur + 1 = level then st.i else st.start }
+    else st
+  let st := if c = ')' then
+      { st with acc := if st.cur = level then st.acc ++ [(st.start, st.i)] else st.acc, cur := st.cur - 1 }
+    else st
+  { st with i := st.i + 1 }
+
+def scan (level : Nat) (st : ScanSt) (s : List Char) : ScanSt := s.foldl (scanStep level) st
+
+theorem pairsAt_eq (s : List Char) (level : Nat) : pairsAt s level = (scan level {} s).acc := rfl
+
+theorem scan_append (level : Nat) (st : ScanSt) (a b : List Char) :
+    scan level st (a ++ b) = scan level (scan level st a) b := by
+  simp [scan]
+
+theorem scan_cons (level : Nat) (st : ScanSt) (a : Char) (b : List Char) :
+    scan level st (a :: b) = scan level (scanStep level st a) b := rfl
+
+theorem scan_nil (level : Nat) (st : ScanSt) : scan level st [] = st := rfl
+
+theorem scan_flat (level : Nat) (s : List Char) (hs : Flat s) (i c st : Nat) (acc : List (Nat × Nat)) :
+    scan level ⟨i, c, st, acc⟩ s = ⟨i + s.length, c, st, acc⟩ := by
+  induction s generalizing i with
+  | nil => rfl
+  | cons x xs ih =>
+    have hx := (Flat_cons.1 hs).1
+    rw [scan_cons]
+    have : scanStep level ⟨i, c, st, acc⟩ x = ⟨i + 1, c, st, acc⟩ := by
+      simp [scanStep, hx.1, hx.2]
+    rw [this, ih (Flat_cons.1 hs).2]
+    simp only [List.length_cons]
+    congr 1; omega
+
+theorem scan_open (level : Nat) (i c st : Nat) (acc : List (Nat × Nat)) :
+    scanStep level ⟨i, c, st, acc⟩ '(' = ⟨i + 1, c + 1, if c + 1 = level then i else st, acc⟩ := by
+  simp [scanStep]
+
+theorem scan_close (level : Nat) (i c st : Nat) (acc : List (Nat × Nat)) :
+    scanStep level ⟨i, c, st, acc⟩ ')' =
+      ⟨i + 1, c - 1, st, if c = level then acc ++ [(st, i)] else acc⟩ := by
+  simp [scanStep]
+
+/-! ## positions of the parenthesis pairs at a given level -/
+
+def pairsL (f : Nat → NTree → List (Nat × Nat)) (w : NTree → Nat) : Nat → List NTree → List (Nat × Nat)
+  | _, [] => []
+  | off, t :: ts => f off t ++ pairsL f w (off + w t + 1) ts
+
+/-- pairs contributed by `P (cut (d+1) t)` placed at offset `off`, for the level that is `d+1` above
+    the level outside `t` -/
+def pairsT : Nat → Nat → NTree → List (Nat × Nat)
+  | 0, off, .node _ _ ks =>
+    if ks = [] then [] else [(off, off + 1 + (joinC (ks.map fun k => P (cut 0 k))).length)]
+  | d + 1, off, .node _ _ ks =>
+    if ks = [] then [] else pairsL (pairsT d) (fun k => (P (cut (d + 1) k)).length) (off + 1) ks
+
+theorem scan_list (level c : Nat) (f : Nat → NTree → List (Nat × Nat)) (g : NTree → List Char)
+    (ks : List NTree)
+    (hk : ∀ k ∈ ks, ∀ i st acc, ∃ st', scan level ⟨i, c, st, acc⟩ (g k)
+        = ⟨i + (g k).length, c, st', acc ++ f i k⟩) :
+    ∀ i st acc, ∃ st', scan level ⟨i, c, st, acc⟩ (joinC (ks.map g))
+        = ⟨i + (joinC (ks.map g)).length, c, st', acc ++ pairsL f (fun k => (g k).length) i ks⟩ := by
+  induction ks with
+  | nil => intro i st acc; exact ⟨st, by simp [joinC, scan_nil, pairsL]⟩
+  | cons t ts ih =>
+    intro i st acc
+    obtain ⟨st1, h1⟩ := hk t (by simp) i st acc
+    cases ts with
+    | nil =>
+      refine ⟨st1, ?_⟩
+      simp only [List.map_cons, List.map_nil, joinC, pairsL, List.append_nil]
+      exact h1
+    | cons u ts =>
+      obtain ⟨st2, h2⟩ := ih (fun k hk' => hk k (by simp [hk'])) (i + (g t).length + 1) st1 (acc ++ f i t)
+      refine ⟨st2, ?_⟩
+      simp only [List.map_cons, joinC_cons2] at h2 ⊢
+      rw [scan_append, h1, scan_cons]
+      have : scanStep level ⟨i + (g t).length, c, st1, acc ++ f i t⟩ ','
+          = ⟨i + (g t).length + 1, c, st1, acc ++ f i t⟩ := by
+        simp [scanStep]
+      rw [this, h2]
+      simp only [pairsL, List.length_append, List.length_cons, List.append_assoc]
+      congr 1; omega
+
+theorem scan_tree (d : Nat) : ∀ (t : NTree), AllT WFn t → ∀ (level c : Nat), level = c + d + 1 →
+    ∀ i st acc, ∃ st', scan level ⟨i, c, st, acc⟩ (P (cut (d + 1) t))
+        = ⟨i + (P (cut (d + 1) t)).length, c, st', acc ++ pairsT d i t⟩ := by
+  induction d with
+  | zero =>
+    intro t ht level c hl i st acc
+    match t, ht with
+    | .node id h ks, ht =>
+      rw [AllT_node] at ht
+      have hlab := Flat_lab id h ht.1.1
+      by_cases hks : ks = []
+      · subst hks
+        refine ⟨st, ?_⟩
+        simp only [cut, List.map_nil, P_leaf, pairsT, if_true, List.append_nil]
+        exact scan_flat _ _ hlab ..
+      · have hks' : ks.map (cut 0) ≠ [] := by simpa using hks
+        have hB : Flat (joinC ((ks.map (cut 0)).map P)) := by
+          apply Flat_joinC
+          intro x hx
+          simp only [List.map_map, List.mem_map, Function.comp] at hx
+          obtain ⟨k, hk, rfl⟩ := hx
+          rw [P_cut0]
+          have := AllT_self _ _ (ht.2 k hk)
+          exact Flat_lab _ _ this.1
+        refine ⟨i, ?_⟩
+        simp only [cut, pairsT, if_neg hks, P_kids _ _ _ hks']
+        rw [scan_cons, scan_open, scan_append, if_pos (by omega), scan_flat _ _ hB, scan_cons,
+          scan_close, if_pos (by omega), scan_flat _ _ hlab]
+        simp only [List.length_cons, List.length_append, List.map_map, Function.comp_def]
+        congr 1 <;> omega
+  | succ d ih =>
+    intro t ht level c hl i st acc
+    match t, ht with
+    | .node id h ks, ht =>
+      rw [AllT_node] at ht
+      have hlab := Flat_lab id h ht.1.1
+      by_cases hks : ks = []
+      · subst hks
+        refine ⟨st, ?_⟩
+        simp only [cut, List.map_nil, P_leaf, pairsT, if_true, List.append_nil]
+        exact scan_flat _ _ hlab ..
+      · have hks' : ks.map (cut (d + 1)) ≠ [] := by simpa using hks
+        obtain ⟨st', hs⟩ := scan_list level (c + 1) (pairsT d) (fun k => P (cut (d + 1) k)) ks
+          (fun k hk => ih k (ht.2 k hk) level (c + 1) (by omega)) (i + 1) st acc
+        refine ⟨st', ?_⟩
+        rw [cut, P_kids _ _ _ hks']
+        simp only [pairsT, if_neg hks, List.map_map, Function.comp_def]
+        rw [scan_cons, scan_open, scan_append, if_neg (by omega), hs, scan_cons,
+          scan_close, if_neg (by omega), scan_flat _ _ hlab]
+        simp only [List.length_cons, List.length_append]
+        congr 1 <;> omega
+
+/-- the text after all levels deeper than `k + 1` have been excised -/
+def F (k : Nat) (ts : List NTree) : List Char :=
+  '(' :: (joinC (ts.map fun t => P (cut k t)) ++ [')', ';'])
+
+theorem Flat_joinC_cut0 (ts : List NTree) (h : ∀ k ∈ ts, AllT WFn k) :
+    Flat (joinC (ts.map fun t => P (cut 0 t))) := by
+  apply Flat_joinC
+  intro x hx
+  simp only [List.mem_map] at hx
+  obtain ⟨k, hk, rfl⟩ := hx
+  rw [P_cut0]
+  exact Flat_lab _ _ (AllT_self _ _ (h k hk)).1
+
+theorem pairsAt_forest (d : Nat) (ts : List NTree) (h : ∀ k ∈ ts, AllT WFn k) :
+    pairsAt (F (d + 1) ts) (d + 2)
+      = pairsL (pairsT d) (fun k => (P (cut (d + 1) k)).length) 1 ts := by
+  obtain ⟨st', hs⟩ := scan_list (d + 2) 1 (pairsT d) (fun k => P (cut (d + 1) k)) ts
+    (fun k hk => scan_tree d k (h k hk) (d + 2) 1 (by omega)) 1 0 []
+  rw [pairsAt_eq, F]
+  show (scan (d + 2) ⟨0, 0, 0, []⟩ _).acc = _
+  rw [scan_cons, scan_open, scan_append, if_neg (by omega), hs, scan_cons, scan_close,
+    if_neg (by omega), scan_flat _ _ (by simp [Flat])]
+  simp
+
+theorem pairsAt_forest0 (ts : List NTree) (h : ∀ k ∈ ts, AllT WFn k) :
+    pairsAt (F 0 ts) 1 = [(0, 1 + (joinC (ts.map fun t => P (cut 0 t))).length)] := by
+  rw [pairsAt_eq, F]
+  show (scan 1 ⟨0, 0, 0, []⟩ _).acc = _
+  rw [scan_cons, scan_open, scan_append, if_pos (by omega), scan_flat _ _ (Flat_joinC_cut0 ts h),
+    scan_cons, scan_close, if_pos (by omega), scan_flat _ _ (by simp [Flat])]
+  simp
+
+/-! ## splitting and the dict literal -/
+
+theorem splitOnChar_ne_nil (c : Char) (s : List Char) : splitOnChar c s ≠ [] := by
+  cases s with
+  | nil => simp [splitOnChar]
+  | cons x xs =>
+    rw [splitOnChar]
+    split
+    · simp
+    · split <;> simp
+
+theorem splitOnChar_none (c : Char) (l : List Char) (hl : ∀ x ∈ l, x ≠ c) :
+    splitOnChar c l = [l] := by
+  induction l with
+  | nil => rfl
+  | cons x xs ih =>
+    rw [splitOnChar, ih (fun y hy => hl y (by simp [hy]))]
+    simp [hl x (by simp)]
+
+theorem splitOnChar_append (c : Char) (l r : List Char) (hl : ∀ x ∈ l, x ≠ c) :
+    splitOnChar c (l ++ c :: r) = l :: splitOnChar c r := by
+  induction l with
+  | nil =>
+    rw [List.nil_append, splitOnChar]
+    cases h : splitOnChar c r with
+    | nil => exact absurd h (splitOnChar_ne_nil c r)
+    | cons w ws => simp
+  | cons x xs ih =>
+    rw [List.cons_append, splitOnChar, ih (fun y hy => hl y (by simp [hy]))]
+    simp [hl x (by simp)]
+
+theorem splitOnChar_joinC (xs : List (List Char)) (hne : xs ≠ [])
+    (h : ∀ x ∈ xs, ∀ c ∈ x, c ≠ ',') : splitOnChar ',' (joinC xs) = xs := by
+  induction xs with
+  | nil => exact absurd rfl hne
+  | cons x r ih =>
+    cases r with
+    | nil => simpa [joinC] using splitOnChar_none ',' x (h x (by simp))
+    | cons y r =>
+      rw [joinC_cons2, splitOnChar_append _ _ _ (h x (by simp)),
+        ih (by simp) (fun z hz => h z (by simp [hz]))]
+
+theorem digits_ne_colon (i : Nat) : ∀ c ∈ (toString i).toList, c ≠ ':' := by
+  intro c hc
+  have := (toString_nat_digits i).1 c hc
+  rintro rfl; revert this; decide
+
+theorem digits_ne_comma (i : Nat) : ∀ c ∈ (toString i).toList, c ≠ ',' := by
+  intro c hc
+  have := (toString_nat_digits i).1 c hc
+  rintro rfl; revert this; decide
+
+theorem splitOnChar_lab (i : Nat) (h : String) (hc : ∀ c ∈ h.toList, c ≠ ':') :
+    splitOnChar ':' (lab i h) = [(toString i).toList, h.toList] := by
+  rw [lab, splitOnChar_append _ _ _ (digits_ne_colon i), splitOnChar_none _ _ hc]
+
+/-- one entry of the dict literal -/
+def dictStep (acc : List (Nat × String)) (e : List Char) : Option (List (Nat × String)) :=
+  match splitOnChar ':' e with
+  | [k, v] =>
+    if v.isEmpty then none else
+    (digitsToNat? k).map fun key =>
+      if acc.any (fun kv => kv.1 == key) then
+        acc.map (fun kv => if kv.1 == key then (key, String.ofList v) else kv)
+      else acc ++ [(key, String.ofList v)]
+  | _ => none
+
+theorem readDict_eq (s : List Char) :
+    readDict s = if s.isEmpty then some [] else (splitOnChar ',' s).foldlM dictStep [] := rfl
+
+theorem dictStep_lab (acc : List (Nat × String)) (k : NTree) (hk : WFn k)
+    (hacc : ∀ kv ∈ acc, kv.1 ≠ k.id) :
+    dictStep acc (lab k.id k.height) = some (acc ++ [(k.id, k.height)]) := by
+  have hany : acc.any (fun kv => kv.1 == k.id) = false := by
+    rw [List.any_eq_false]
+    intro kv hkv
+    simpa using hacc kv hkv
+  have hne : k.height.toList.isEmpty = false := by
+    have := hk.1.1
+    cases h : k.height.toList with
+    | nil => exact absurd h this
+    | cons _ _ => rfl
+  simp only [dictStep, splitOnChar_lab _ _ hk.2.1, hne, digits_roundtrip, Option.map_some, hany,
+    String.ofList_toList]
+  simp
+
+theorem dict_fold (ks : List NTree) (hks : ∀ k ∈ ks, WFn k) (hnd : (ks.map NTree.id).Nodup)
+    (acc : List (Nat × String)) (hacc : ∀ kv ∈ acc, ∀ k ∈ ks, kv.1 ≠ k.id) :
+    (ks.map fun k => lab k.id k.height).foldlM dictStep acc = some (acc ++ dictOf ks) := by
+  induction ks generalizing acc with
+  | nil => simp [dictOf]
+  | cons k ks ih =>
+    rw [List.map_cons, List.nodup_cons] at hnd
+    rw [List.map_cons, List.foldlM_cons, dictStep_lab acc k (hks k (by simp))
+      (fun kv hkv => hacc kv hkv k (by simp))]
+    simp only [Option.bind_eq_bind, Option.bind_some]
+    rw [ih (fun k' hk' => hks k' (by simp [hk'])) hnd.2]
+    · simp [dictOf]
+    · intro kv hkv k' hk'
+      rw [List.mem_append] at hkv
+      rcases hkv with hkv | hkv
+      · exact hacc kv hkv k' (by simp [hk'])
+      · simp only [List.mem_singleton] at hkv
+        subst hkv
+        intro e
+        exact hnd.1 (by simp only [List.mem_map]; exact ⟨k', hk', e.symm⟩)
+
+theorem lab_ne_nil (i : Nat) (h : String) : lab i h ≠ [] := by simp [lab]
+
+theorem joinC_ne_nil (xs : List (List Char)) (hne : xs ≠ []) (h : ∀ x ∈ xs, x ≠ []) :
+    joinC xs ≠ [] := by
+  match xs, hne with
+  | [x], _ => simpa [joinC] using h x (by simp)
+  | x :: y :: r, _ => simp [joinC_cons2]
+
+theorem readDict_leaves (ks : List NTree) (hks : ∀ k ∈ ks, WFn k) (hnd : (ks.map NTree.id).Nodup) :
+    readDict (joinC (ks.map fun k => P (cut 0 k))) = some (dictOf ks) := by
+  have e : (ks.map fun k => P (cut 0 k)) = ks.map fun k => lab k.id k.height := by
+    simp [P_cut0]
+  rw [e, readDict_eq]
+  by_cases hne : ks = []
+  · subst hne; simp [joinC, dictOf]
+  · have h1 : (joinC (ks.map fun k => lab k.id k.height)).isEmpty = false := by
+      have := joinC_ne_nil (ks.map fun k => lab k.id k.height) (by simpa using hne)
+        (by intro x hx; simp only [List.mem_map] at hx; obtain ⟨k, _, rfl⟩ := hx; exact lab_ne_nil _ _)
+      cases h : joinC (ks.map fun k => lab k.id k.height) with
+      | nil => exact absurd h this
+      | cons _ _ => rfl
+    rw [h1, splitOnChar_joinC _ (by simpa using hne)]
+    · simpa using dict_fold ks hks hnd [] (by simp)
+    · intro x hx c hc
+      simp only [List.mem_map] at hx
+      obtain ⟨k, hk, rfl⟩ := hx
+      rw [lab, List.mem_append, List.mem_cons] at hc
+      rcases hc with hc | rfl | hc
+      · exact digits_ne_comma _ c hc
+      · decide
+      · exact ((hks k hk).1.2 c hc).1
+
+/-! ## one excision -/
+
+def pstep (st : List Char × Items) (pr : Nat × Nat) : Option (List Char × Items) := do
+    let s := st.1
+    let (start, stop) := pr
+    let idStr := match findFrom s ':' stop with
+      | some c => slice s (stop + 1) c
+      | none => slice s (stop + 1) (s.length - 1)
+    let key ← if idStr.isEmpty then some none else (digitsToNat? idStr).map some
+    let d ← readDict (slice s (start + 1) stop)
+    pure (s.take start ++ s.drop (stop + 1), st.2.set key d)
+
+theorem processLevel_eq (st : List Char × Items) (level : Nat) :
+    processLevel st level = (pairsAt st.1 level).reverse.foldlM pstep st := rfl
+
+theorem idxOf?_append_self (D post : List Char) (c : Char) (hD : ∀ x ∈ D, x ≠ c) :
+    (D ++ c :: post).idxOf? c = some D.length := by
+  induction D with
+  | nil => simp [List.idxOf?_cons]
+  | cons x xs ih =>
+    rw [List.cons_append, List.idxOf?_cons, ih (fun y hy => hD y (by simp [hy]))]
+    simp [hD x (by simp)]
+
+theorem pstep_group (pre B post : List Char) (i : Nat) (dict : List (Nat × String)) (items : Items)
+    (hB : readDict B = some dict) :
+    pstep (pre ++ '(' :: (B ++ ')' :: ((toString i).toList ++ ':' :: post)), items)
+        (pre.length, pre.length + 1 + B.length)
+      = some (pre ++ ((toString i).toList ++ ':' :: post), items.set (some i) dict) := by
+  generalize hD : (toString i).toList = D
+  have hDne : D ≠ [] := hD ▸ (toString_nat_digits i).2
+  have hDc : ∀ x ∈ D, x ≠ ':' := hD ▸ digits_ne_colon i
+  have hDn : digitsToNat? D = some i := hD ▸ digits_roundtrip i
+  have e1 : pre ++ '(' :: (B ++ ')' :: (D ++ ':' :: post))
+      = (pre ++ '(' :: B) ++ ((')' :: D) ++ ':' :: post) := by simp
+  have e2 : pre ++ '(' :: (B ++ ')' :: (D ++ ':' :: post))
+      = ((pre ++ '(' :: B ++ [')']) ++ D) ++ (':' :: post) := by simp
+  have e3 : pre ++ '(' :: (B ++ ')' :: (D ++ ':' :: post))
+      = (pre ++ '(' :: B ++ [')']) ++ (D ++ ':' :: post) := by simp
+  have e4 : pre ++ '(' :: (B ++ ')' :: (D ++ ':' :: post))
+      = (pre ++ ['(']) ++ (B ++ ')' :: (D ++ ':' :: post)) := by simp
+  have hfind : findFrom (pre ++ '(' :: (B ++ ')' :: (D ++ ':' :: post))) ':' (pre.length + 1 + B.length)
+      = some (pre.length + 1 + B.length + 1 + D.length) := by
+    rw [findFrom, e1, List.drop_left' (by simp; omega),
+      idxOf?_append_self _ _ _ (by
+        intro x hx; rw [List.mem_cons] at hx
+        rcases hx with rfl | hx
+        · decide
+        · exact hDc x hx)]
+    simp; omega
+  have hid : slice (pre ++ '(' :: (B ++ ')' :: (D ++ ':' :: post))) (pre.length + 1 + B.length + 1)
+      (pre.length + 1 + B.length + 1 + D.length) = D := by
+    rw [slice, e2, List.take_left' (by simp; omega), List.drop_left' (by simp; omega)]
+  have hdict : slice (pre ++ '(' :: (B ++ ')' :: (D ++ ':' :: post))) (pre.length + 1)
+      (pre.length + 1 + B.length) = B := by
+    rw [slice, e1, List.take_left' (by simp; omega)]
+    have : pre ++ '(' :: B = (pre ++ ['(']) ++ B := by simp
+    rw [this, List.drop_left' (by simp)]
+  have htake : (pre ++ '(' :: (B ++ ')' :: (D ++ ':' :: post))).take pre.length = pre :=
+    List.take_left' rfl
+  have hdrop : (pre ++ '(' :: (B ++ ')' :: (D ++ ':' :: post))).drop (pre.length + 1 + B.length + 1)
+      = D ++ ':' :: post := by
+    rw [e3, List.drop_left' (by simp; omega)]
+  have hDe : D.isEmpty = false := by
+    cases D with
+    | nil => exact absurd rfl hDne
+    | cons _ _ => rfl
+  simp only [pstep, hfind, hid, hdict, htake, hdrop, hDe, hDn, hB]
+  rfl
+
+theorem pstep_top (B : List Char) (dict : List (Nat × String)) (items : Items)
+    (hB : readDict B = some dict) :
+    pstep ('(' :: (B ++ [')', ';']), items) (0, 1 + B.length)
+      = some ([';'], items.set none dict) := by
+  have e1 : '(' :: (B ++ [')', ';']) = ('(' :: B) ++ [')', ';'] := by simp
+  have e2 : '(' :: (B ++ [')', ';']) = ('(' :: B ++ [')']) ++ [';'] := by simp
+  have hfind : findFrom ('(' :: (B ++ [')', ';'])) ':' (1 + B.length) = none := by
+    rw [findFrom, e1, List.drop_left' (by simp; omega)]
+    simp [List.idxOf?_cons]
+  have hlen : ('(' :: (B ++ [')', ';'])).length - 1 = 1 + B.length + 1 := by simp; omega
+  have hid : slice ('(' :: (B ++ [')', ';'])) (1 + B.length + 1) (1 + B.length + 1) = [] := by
+    rw [slice, e2, List.take_left' (by simp; omega), List.drop_eq_nil_iff]
+    simp; omega
+  have hdict : slice ('(' :: (B ++ [')', ';'])) (0 + 1) (1 + B.length) = B := by
+    rw [slice, e1, List.take_left' (by simp; omega)]
+    simp
+  have hdrop : ('(' :: (B ++ [')', ';'])).drop (1 + B.length + 1) = [';'] := by
+    rw [e2, List.drop_left' (by simp; omega)]
+  simp only [pstep, hfind, hlen, hid, hdict, hdrop, hB]
+  rfl
+
+/-! ## processing all pairs of one level -/
+
+def setAll (es : List (Nat × List (Nat × String))) (items : Items) : Items :=
+  es.foldl (fun it e => it.set (some e.1) e.2) items
+
+theorem setAll_append (a b : List (Nat × List (Nat × String))) (items : Items) :
+    setAll (a ++ b) items = setAll b (setAll a items) := by
+  simp [setAll]
+
+/-- branches whose children sit `d + 1` levels below the outside of `t`, in processing order -/
+def entriesT : Nat → NTree → List (Nat × List (Nat × String))
+  | 0, .node i _ ks => if ks = [] then [] else [(i, dictOf ks)]
+  | d + 1, .node _ _ ks => ks.reverse.flatMap (entriesT d)
+
+theorem proc_list (f : Nat → NTree → List (Nat × Nat)) (g g' : NTree → List Char)
+    (e : NTree → List (Nat × List (Nat × String))) (ks : List NTree)
+    (hk : ∀ k ∈ ks, ∀ pre post items,
+      (f pre.length k).reverse.foldlM pstep (pre ++ (g k ++ post), items)
+        = some (pre ++ (g' k ++ post), setAll (e k) items)) :
+    ∀ pre post items,
+      (pairsL f (fun k => (g k).length) pre.length ks).reverse.foldlM pstep
+          (pre ++ (joinC (ks.map g) ++ post), items)
+        = some (pre ++ (joinC (ks.map g') ++ post), setAll (ks.reverse.flatMap e) items) := by
+  induction ks with
+  | nil => intro pre post items; simp [pairsL, joinC, setAll]
+  | cons t ts ih =>
+    intro pre post items
+    cases ts with
+    | nil =>
+      have := hk t (by simp) pre post items
+      simpa [pairsL, joinC] using this
+    | cons u ts =>
+      have hlen : pre.length + (g t).length + 1 = (pre ++ (g t ++ [','])).length := by
+        simp; omega
+      have ih' := ih (fun k hk' => hk k (by simp [hk'])) (pre ++ (g t ++ [','])) post items
+      have ht := hk t (by simp) pre (',' :: (joinC ((u :: ts).map g') ++ post))
+        (setAll ((u :: ts).reverse.flatMap e) items)
+      rw [pairsL, List.reverse_append, List.foldlM_append]
+      simp only [List.map_cons, joinC_cons2] at ih' ⊢
+      rw [hlen]
+      have e1 : pre ++ (g t ++ ',' :: joinC (g u :: ts.map g) ++ post)
+          = pre ++ (g t ++ [',']) ++ (joinC (g u :: ts.map g) ++ post) := by simp
+      rw [e1, ih']
+      simp only [Option.bind_eq_bind, Option.bind_some]
+      have e2 : pre ++ (g t ++ [',']) ++ (joinC (g' u :: ts.map g') ++ post)
+          = pre ++ (g t ++ ',' :: (joinC (g' u :: ts.map g') ++ post)) := by simp
+      rw [e2]
+      simp only [List.map_cons] at ht
+      rw [ht]
+      simp only [List.reverse_cons, List.flatMap_append, List.flatMap_cons, List.flatMap_nil,
+        List.append_nil, setAll_append, List.append_assoc, List.cons_append]
+      rfl
+
+theorem proc_tree (d : Nat) : ∀ (t : NTree), AllT WFn t → ∀ pre post items,
+    (pairsT d pre.length t).reverse.foldlM pstep (pre ++ (P (cut (d + 1) t) ++ post), items)
+      = some (pre ++ (P (cut d t) ++ post), setAll (entriesT d t) items) := by
+  induction d with
+  | zero =>
+    intro t ht pre post items
+    match t, ht with
+    | .node id h ks, ht =>
+      rw [AllT_node] at ht
+      by_cases hks : ks = []
+      · subst hks
+        simp [pairsT, cut, entriesT, setAll]
+      · have hks' : ks.map (cut 0) ≠ [] := by simpa using hks
+        have hrd := readDict_leaves ks (fun k hk => AllT_self _ _ (ht.2 k hk)) ht.1.2.2
+        have := pstep_group pre (joinC (ks.map fun k => P (cut 0 k))) (h.toList ++ post) id
+          (dictOf ks) items hrd
+        simp only [pairsT, if_neg hks, cut, P_kids _ _ _ hks', P_leaf, entriesT, List.map_map,
+          Function.comp_def, List.reverse_cons, List.reverse_nil, List.nil_append,
+          List.foldlM_cons, List.foldlM_nil, lab, List.append_assoc, List.cons_append]
+        rw [this]
+        rfl
+  | succ d ih =>
+    intro t ht pre post items
+    match t, ht with
+    | .node id h ks, ht =>
+      rw [AllT_node] at ht
+      by_cases hks : ks = []
+      · subst hks
+        simp [pairsT, cut, entriesT, setAll]
+      · have hks1 : ks.map (cut (d + 1)) ≠ [] := by simpa using hks
+        have hks2 : ks.map (cut d) ≠ [] := by simpa using hks
+        have := proc_list (pairsT d) (fun k => P (cut (d + 1) k)) (fun k => P (cut d k))
+          (entriesT d) ks (fun k hk => ih k (ht.2 k hk)) (pre ++ ['(']) (')' :: (lab id h ++ post))
+          items
+        rw [cut, cut, P_kids _ _ _ hks1, P_kids _ _ _ hks2]
+        simp only [pairsT, if_neg hks, entriesT, List.map_map, Function.comp_def]
+        simp only [List.length_append, List.length_cons, List.length_nil, List.append_assoc,
+          List.cons_append, List.nil_append] at this ⊢
+        exact this
+
+theorem processLevel_forest (d : Nat) (ts : List NTree) (h : ∀ k ∈ ts, AllT WFn k) (items : Items) :
+    processLevel (F (d + 1) ts, items) (d + 2)
+      = some (F d ts, setAll (ts.reverse.flatMap (entriesT d)) items) := by
+  rw [processLevel_eq]
+  simp only []
+  rw [pairsAt_forest d ts h]
+  have := proc_list (pairsT d) (fun k => P (cut (d + 1) k)) (fun k => P (cut d k))
+    (entriesT d) ts (fun k hk => proc_tree d k (h k hk)) ['('] [')', ';'] items
+  simpa [F] using this
+
+theorem processLevel_forest0 (ts : List NTree) (h : ∀ k ∈ ts, AllT WFn k)
+    (hnd : (ts.map NTree.id).Nodup) (items : Items) :
+    processLevel (F 0 ts, items) 1 = some ([';'], items.set none (dictOf ts)) := by
+  rw [processLevel_eq]
+  simp only []
+  rw [pairsAt_forest0 ts h]
+  have hrd := readDict_leaves ts (fun k hk => AllT_self _ _ (h k hk)) hnd
+  have := pstep_top _ _ items hrd
+  simp only [List.reverse_cons, List.reverse_nil, List.nil_append, List.foldlM_cons,
+    List.foldlM_nil, F]
+  rw [this]
+  rfl
+
+/-- all branch entries of levels `n + 1, …, 2`, in processing order -/
+def allE : Nat → List NTree → List (Nat × List (Nat × String))
+  | 0, _ => []
+  | n + 1, ts => ts.reverse.flatMap (entriesT n) ++ allE n ts
+
+theorem levels_fold (ts : List NTree) (h : ∀ k ∈ ts, AllT WFn k) (hnd : (ts.map NTree.id).Nodup)
+    (n : Nat) : ∀ items,
+    (List.range' 1 (n + 1)).reverse.foldlM processLevel (F n ts, items)
+      = some ([';'], (setAll (allE n ts) items).set none (dictOf ts)) := by
+  induction n with
+  | zero =>
+    intro items
+    simp only [Nat.zero_add, List.range'_one, List.reverse_cons, List.reverse_nil, List.nil_append,
+      List.foldlM_cons, List.foldlM_nil]
+    rw [processLevel_forest0 ts h hnd]
+    rfl
+  | succ n ih =>
+    intro items
+    rw [List.range'_concat, List.reverse_append]
+    simp only [List.reverse_cons, List.reverse_nil, List.nil_append, List.cons_append,
+      List.foldlM_cons]
+    rw [show 1 + 1 * (n + 1) = n + 2 by omega, processLevel_forest n ts h]
+    simp only [Option.bind_eq_bind, Option.bind_some]
+    rw [ih, allE, setAll_append]
+
+/-! ## nesting depth -/
+
+mutual
+def depthT : NTree → Nat
+  | .node _ _ ks => depthL ks
+def depthL : List NTree → Nat
+  | [] => 0
+  | t :: ts => max (depthT t + 1) (depthL ts)
+end
+
+theorem depthL_pos (ks : List NTree) (h : ks ≠ []) : 1 ≤ depthL ks := by
+  cases ks with
+  | nil => exact absurd rfl h
+  | cons t ts => rw [depthL]; omega
+
+def mstep (st : Nat × Nat) (c : Char) : Nat × Nat :=
+  let cur := if c = '(' then st.1 + 1 else st.1
+  let cur := if c = ')' then cur - 1 else cur
+  (cur, max st.2 cur)
+
+theorem maxLevel_eq (s : List Char) : maxLevel s = (s.foldl mstep (0, 0)).2 := rfl
+
+theorem mscan_flat (s : List Char) (hs : Flat s) (c mx : Nat) (h : c ≤ mx) :
+    s.foldl mstep (c, mx) = (c, mx) := by
+  induction s with
+  | nil => rfl
+  | cons x xs ih =>
+    have hx := (Flat_cons.1 hs).1
+    rw [List.foldl_cons]
+    have : mstep (c, mx) x = (c, mx) := by
+      simp only [mstep, hx.1, hx.2, if_false]
+      congr 1; omega
+    rw [this, ih (Flat_cons.1 hs).2]
+
+theorem mstep_open (c mx : Nat) : mstep (c, mx) '(' = (c + 1, max mx (c + 1)) := by
+  simp [mstep]
+
+theorem mstep_close (c mx : Nat) : mstep (c, mx) ')' = (c - 1, max mx (c - 1)) := by
+  simp [mstep]
+
+mutual
+theorem mscanT (t : NTree) (ht : AllT WFn t) (c mx : Nat) (h : c ≤ mx) :
+    (P t).foldl mstep (c, mx) = (c, max mx (c + depthT t)) := by
+  match t, ht with
+  | .node i hh ks, ht =>
+    rw [AllT] at ht
+    have hlab := Flat_lab i hh ht.1.1
+    match ks, ht with
+    | [], _ =>
+      rw [P_leaf, mscan_flat _ hlab _ _ h, depthT, depthL]
+      congr 1; omega
+    | k :: ks', ht =>
+      have := mscanL (k :: ks') ht.2 c (max mx (c + 1)) (by omega)
+      have hp := depthL_pos (k :: ks') (by simp)
+      rw [P_kids _ _ _ (by simp), List.foldl_cons, mstep_open, List.foldl_append, this,
+        List.foldl_cons, mstep_close, mscan_flat _ hlab _ _ (by omega), depthT]
+      congr 1; omega
+theorem mscanL (ts : List NTree) (hts : AllL WFn ts) (c mx : Nat) (h : c + 1 ≤ mx) :
+    (joinC (ts.map P)).foldl mstep (c + 1, mx) = (c + 1, max mx (c + depthL ts)) := by
+  match ts, hts with
+  | [], _ =>
+    simp only [List.map_nil, joinC, List.foldl_nil, depthL]
+    congr 1; omega
+  | [t], hts =>
+    rw [AllL] at hts
+    simp only [List.map_cons, List.map_nil, joinC]
+    rw [mscanT t hts.1 _ _ h, depthL, depthL]
+    congr 1; omega
+  | t :: u :: ts', hts =>
+    rw [AllL] at hts
+    rw [List.map_cons, List.map_cons, joinC_cons2, List.foldl_append, mscanT t hts.1 _ _ h,
+      List.foldl_cons]
+    have : mstep (c + 1, max mx (c + 1 + depthT t)) ',' = (c + 1, max mx (c + 1 + depthT t)) := by
+      simp only [mstep]
+      simp only [show (',' = '(') = False by decide, show (',' = ')') = False by decide, if_false]
+      congr 1; omega
+    rw [this]
+    have ih := mscanL (u :: ts') hts.2 c (max mx (c + 1 + depthT t)) (by omega)
+    rw [List.map_cons] at ih
+    rw [ih, show depthL (t :: u :: ts') = max (depthT t + 1) (depthL (u :: ts')) by rw [depthL]]
+    congr 1; omega
+end
+
+theorem maxLevel_printForest (ts : List NTree) (hts : AllL WFn ts) :
+    maxLevel (printForest ts).toList = max 1 (depthL ts) := by
+  rw [maxLevel_eq, printForest_eq, List.foldl_cons, mstep_open, List.foldl_append,
+    mscanL ts hts 0 _ (by omega), List.foldl_cons, mstep_close,
+    mscan_flat _ (by simp [Flat]) _ _ (by omega)]
+  simp only; omega
+
+mutual
+theorem cutT_id (t : NTree) (k : Nat) (h : depthT t ≤ k) : cut k t = t := by
+  match t, k, h with
+  | .node i hh ks, 0, h =>
+    rw [depthT] at h
+    cases ks with
+    | nil => rfl
+    | cons a b => have := depthL_pos (a :: b) (by simp); omega
+  | .node i hh ks, k + 1, h =>
+    rw [depthT] at h
+    rw [cut, cutL_id ks k h]
+theorem cutL_id (ts : List NTree) (k : Nat) (h : depthL ts ≤ k + 1) : ts.map (cut k) = ts := by
+  match ts, h with
+  | [], _ => rfl
+  | t :: ts', h =>
+    rw [depthL] at h
+    rw [List.map_cons, cutT_id t k (by omega), cutL_id ts' k (by omega)]
+end
+
+/-! ## the branch table -/
+
+def lookup (items : Items) (k : Option Nat) : Option (Option Nat × List (Nat × String)) :=
+  items.find? (fun e => e.1 == k)
+
+theorem find?_map_set (items : Items) (k k' : Option Nat) (d : List (Nat × String)) :
+    (items.map (fun kv => if kv.1 == k then (k, d) else kv)).find? (fun e => e.1 == k')
+      = if k = k' then (items.find? (fun e => e.1 == k)).map (fun _ => (k, d))
+        else items.find? (fun e => e.1 == k') := by
+  induction items with
+  | nil => simp
+  | cons e es ih =>
+    have bf : ∀ {a b : Option Nat}, ¬ a = b → (a == b) = false := fun h => by simpa using h
+    rw [List.map_cons, List.find?_cons, ih]
+    by_cases he : e.1 = k
+    · by_cases hk : k = k'
+      · subst hk; simp [he]
+      · simp [he, hk, bf hk]
+    · by_cases hk : k = k'
+      · subst hk; simp [bf he]
+      · by_cases hek : e.1 = k'
+        · have : ¬ k' = k := fun h => hk h.symm
+          simp [hk, hek, this]
+        · simp [hk, bf he, bf hek]
+
+theorem lookup_set (items : Items) (k k' : Option Nat) (d : List (Nat × String)) :
+    lookup (items.set k d) k' = if k = k' then some (k, d) else lookup items k' := by
+  unfold Items.set lookup
+  by_cases hany : items.any (fun kv => kv.1 == k) = true
+  · rw [if_pos hany, find?_map_set]
+    by_cases hk : k = k'
+    · subst hk
+      rw [if_pos rfl, if_pos rfl]
+      obtain ⟨e, he, hek⟩ := List.any_eq_true.1 hany
+      cases hf : items.find? (fun e => e.1 == k) with
+      | none =>
+        rw [List.find?_eq_none] at hf
+        exact absurd hek (hf e he)
+      | some x => rfl
+    · rw [if_neg hk, if_neg hk]
+  · rw [if_neg hany, List.find?_append]
+    have hnone : ∀ e ∈ items, e.1 ≠ k := by
+      intro e he hk
+      exact hany (List.any_eq_true.2 ⟨e, he, by simpa using hk⟩)
+    by_cases hk : k = k'
+    · subst hk
+      have : items.find? (fun e => e.1 == k) = none := by
+        rw [List.find?_eq_none]; intro e he; simpa using hnone e he
+      simp [this]
+    · simp [hk]
+
+theorem lookup_setAll_cases (es : List (Nat × List (Nat × String))) (k : Nat) : ∀ (items : Items),
+    (∃ d', (k, d') ∈ es ∧ lookup (setAll es items) (some k) = some (some k, d')) ∨
+    ((∀ e ∈ es, e.1 ≠ k) ∧ lookup (setAll es items) (some k) = lookup items (some k)) := by
+  induction es with
+  | nil => intro items; right; exact ⟨by simp, rfl⟩
+  | cons e es ih =>
+    intro items
+    have hs : setAll (e :: es) items = setAll es (items.set (some e.1) e.2) := rfl
+    rw [hs]
+    rcases ih (items.set (some e.1) e.2) with ⟨d', hm, hl⟩ | ⟨hn, hl⟩
+    · left; exact ⟨d', by simp [hm], hl⟩
+    · rw [lookup_set] at hl
+      by_cases hk : e.1 = k
+      · left
+        refine ⟨e.2, ?_, ?_⟩
+        · rw [← hk]; simp
+        · rw [hl, if_pos (by rw [hk]), hk]
+      · right
+        refine ⟨?_, ?_⟩
+        · intro e' he'
+          rw [List.mem_cons] at he'
+          rcases he' with rfl | he'
+          · exact hk
+          · exact hn e' he'
+        · rw [hl, if_neg (by simpa using hk)]
+
+/-! ## all nodes -/
+
+mutual
+def nodesT : NTree → List NTree
+  | .node i h ks => .node i h ks :: nodesL ks
+def nodesL : List NTree → List NTree
+  | [] => []
+  | t :: ts => nodesT t ++ nodesL ts
+end
+
+theorem nodesT_eq (t : NTree) : nodesT t = t :: nodesL t.kids := by
+  cases t; rw [nodesT]; rfl
+
+theorem mem_nodesL_of_mem (ks : List NTree) (k : NTree) (hk : k ∈ ks) (n : NTree)
+    (hn : n ∈ nodesT k) : n ∈ nodesL ks := by
+  induction ks with
+  | nil => simp at hk
+  | cons t ts ih =>
+    rw [nodesL, List.mem_append]
+    rw [List.mem_cons] at hk
+    rcases hk with rfl | hk
+    · exact Or.inl hn
+    · exact Or.inr (ih hk)
+
+theorem mem_nodesL (ks : List NTree) (n : NTree) : n ∈ nodesL ks ↔ ∃ k ∈ ks, n ∈ nodesT k := by
+  induction ks with
+  | nil => simp [nodesL]
+  | cons t ts ih => simp [nodesL, ih]
+
+mutual
+theorem ntree_indT {motive : NTree → Prop}
+    (hstep : ∀ i h ks, (∀ k ∈ ks, motive k) → motive (.node i h ks)) : (t : NTree) → motive t
+  | .node i h ks => hstep i h ks (ntree_indL hstep ks)
+theorem ntree_indL {motive : NTree → Prop}
+    (hstep : ∀ i h ks, (∀ k ∈ ks, motive k) → motive (.node i h ks)) :
+    (ks : List NTree) → ∀ k ∈ ks, motive k
+  | [] => by simp
+  | t :: ts => by
+    intro k hk
+    rw [List.mem_cons] at hk
+    rcases hk with rfl | hk
+    · exact ntree_indT hstep k
+    · exact ntree_indL hstep ts k hk
+end
+
+/-- induction on printable trees with the hypothesis for all children -/
+theorem ntree_ind {motive : NTree → Prop}
+    (hstep : ∀ i h ks, (∀ k ∈ ks, motive k) → motive (.node i h ks)) (t : NTree) : motive t :=
+  ntree_indT hstep t
+
+theorem depthT_lt_depthL (l : List NTree) (k : NTree) (hl : k ∈ l) : depthT k + 1 ≤ depthL l := by
+  induction l with
+  | nil => simp at hl
+  | cons a b ihb =>
+    rw [depthL]
+    rw [List.mem_cons] at hl
+    rcases hl with rfl | hl
+    · omega
+    · have := ihb hl; omega
+
+theorem AllT_of_nodes (p : NTree → Prop) (t : NTree) : (∀ n ∈ nodesT t, p n) → AllT p t := by
+  induction t using ntree_ind with
+  | hstep i h ks ih =>
+    intro hn
+    rw [AllT_node]
+    refine ⟨hn _ (by simp [nodesT]), fun k hk => ih k hk (fun n hnk => hn n ?_)⟩
+    rw [nodesT, List.mem_cons]
+    exact Or.inr (mem_nodesL_of_mem ks k hk n hnk)
+
+theorem kids_sublist (ks : List NTree) : List.Sublist ks (nodesL ks) := by
+  induction ks with
+  | nil => exact List.Sublist.slnil
+  | cons t ts ih =>
+    rw [nodesL, nodesT_eq, List.cons_append]
+    exact List.Sublist.cons_cons _ (List.sublist_append_of_sublist_right ih)
+
+theorem nodesT_sublist (ks : List NTree) (k : NTree) (hk : k ∈ ks) :
+    List.Sublist (nodesT k) (nodesL ks) := by
+  induction ks with
+  | nil => simp at hk
+  | cons t ts ih =>
+    rw [nodesL]
+    rw [List.mem_cons] at hk
+    rcases hk with rfl | hk
+    · exact List.sublist_append_left _ _
+    · exact List.sublist_append_of_sublist_right (ih hk)
+
+theorem kids_nodup (t : NTree) : ((nodesT t).map NTree.id).Nodup →
+    ∀ n ∈ nodesT t, (n.kids.map NTree.id).Nodup := by
+  induction t using ntree_ind with
+  | hstep i h ks ih =>
+    intro hnd n hn
+    rw [nodesT, List.map_cons, List.nodup_cons] at hnd
+    rw [nodesT, List.mem_cons] at hn
+    rcases hn with rfl | hn
+    · exact List.Nodup.sublist ((kids_sublist ks).map _) hnd.2
+    · obtain ⟨k, hk, hnk⟩ := (mem_nodesL ks n).1 hn
+      exact ih k hk (List.Nodup.sublist ((nodesT_sublist ks k hk).map _) hnd.2) n hnk
+
+theorem GoodL_iff (ks : List NTree) : GoodL ks ↔ ∀ k ∈ ks, GoodT k := by
+  induction ks with
+  | nil => simp [GoodL]
+  | cons t ts ih => simp [GoodL, ih]
+
+theorem good_nodes (t : NTree) : GoodT t → ∀ n ∈ nodesT t, GoodH n.height := by
+  induction t using ntree_ind with
+  | hstep i h ks ih =>
+    intro hg n hn
+    rw [GoodT, GoodL_iff] at hg
+    rw [nodesT, List.mem_cons] at hn
+    rcases hn with rfl | hn
+    · exact hg.1
+    · obtain ⟨k, hk, hnk⟩ := (mem_nodesL ks n).1 hn
+      exact ih k hk (hg.2 k hk) n hnk
+
+/-- soundness of the branch entries -/
+theorem entriesT_sound (d : Nat) : ∀ (t : NTree) e, e ∈ entriesT d t →
+    ∃ n ∈ nodesT t, n.kids ≠ [] ∧ e = (n.id, dictOf n.kids) := by
+  induction d with
+  | zero =>
+    intro t e he
+    match t, he with
+    | .node i h ks, he =>
+      rw [entriesT] at he
+      split at he
+      · simp at he
+      · rename_i hks
+        rw [List.mem_singleton] at he
+        exact ⟨.node i h ks, by simp [nodesT], hks, he⟩
+  | succ d ih =>
+    intro t e he
+    match t, he with
+    | .node i h ks, he =>
+      rw [entriesT, List.mem_flatMap] at he
+      obtain ⟨k, hk, hek⟩ := he
+      rw [List.mem_reverse] at hk
+      obtain ⟨n, hn, hne, rfl⟩ := ih k e hek
+      refine ⟨n, ?_, hne, rfl⟩
+      rw [nodesT, List.mem_cons]
+      exact Or.inr (mem_nodesL_of_mem ks k hk n hn)
+
+/-- completeness of the branch entries -/
+theorem entriesT_complete (t : NTree) : ∀ n ∈ nodesT t, n.kids ≠ [] →
+    ∃ d, d + 1 ≤ depthT t ∧ (n.id, dictOf n.kids) ∈ entriesT d t := by
+  induction t using ntree_ind with
+  | hstep i h ks ih =>
+    intro n hn hne
+    rw [nodesT, List.mem_cons] at hn
+    rcases hn with rfl | hn
+    · refine ⟨0, ?_, ?_⟩
+      · rw [depthT]; exact depthL_pos ks hne
+      · have hne' : ks ≠ [] := hne
+        rw [entriesT, if_neg hne']; simp [NTree.id, NTree.kids]
+    · obtain ⟨k, hk, hnk⟩ := (mem_nodesL ks n).1 hn
+      obtain ⟨d, hd, hm⟩ := ih k hk n hnk hne
+      refine ⟨d + 1, ?_, ?_⟩
+      · rw [depthT]; have := depthT_lt_depthL ks k hk; omega
+      · rw [entriesT, List.mem_flatMap]
+        exact ⟨k, List.mem_reverse.2 hk, hm⟩
+
+theorem mem_allE (n d : Nat) (ts : List NTree) (hd : d < n) (e : Nat × List (Nat × String))
+    (he : e ∈ ts.reverse.flatMap (entriesT d)) : e ∈ allE n ts := by
+  induction n with
+  | zero => omega
+  | succ n ih =>
+    rw [allE, List.mem_append]
+    by_cases h : d = n
+    · subst h; exact Or.inl he
+    · exact Or.inr (ih (by omega))
+
+theorem allE_sound (n : Nat) (ts : List NTree) (e : Nat × List (Nat × String)) (he : e ∈ allE n ts) :
+    ∃ m ∈ nodesL ts, m.kids ≠ [] ∧ e = (m.id, dictOf m.kids) := by
+  induction n with
+  | zero => simp [allE] at he
+  | succ n ih =>
+    rw [allE, List.mem_append] at he
+    rcases he with he | he
+    · rw [List.mem_flatMap] at he
+      obtain ⟨k, hk, hek⟩ := he
+      rw [List.mem_reverse] at hk
+      obtain ⟨m, hm, hne, rfl⟩ := entriesT_sound n k e hek
+      exact ⟨m, mem_nodesL_of_mem ts k hk m hm, hne, rfl⟩
+    · exact ih he
+
+theorem allE_complete (ts : List NTree) (m : NTree) (hm : m ∈ nodesL ts) (hne : m.kids ≠ []) (n : Nat)
+    (hn : depthL ts ≤ n + 1) : (m.id, dictOf m.kids) ∈ allE n ts := by
+  obtain ⟨k, hk, hmk⟩ := (mem_nodesL ts m).1 hm
+  obtain ⟨d, hd, he⟩ := entriesT_complete k m hmk hne
+  have := depthT_lt_depthL ts k hk
+  apply mem_allE n d ts (by omega)
+  rw [List.mem_flatMap]
+  exact ⟨k, List.mem_reverse.2 hk, he⟩
+
+theorem eq_of_nodup_map_id (l : List NTree) (h : (l.map NTree.id).Nodup) (a b : NTree)
+    (ha : a ∈ l) (hb : b ∈ l) (e : a.id = b.id) : a = b := by
+  induction l with
+  | nil => simp at ha
+  | cons x xs ih =>
+    rw [List.map_cons, List.nodup_cons] at h
+    rw [List.mem_cons] at ha hb
+    rcases ha with rfl | ha <;> rcases hb with rfl | hb
+    · rfl
+    · exact absurd (List.mem_map.2 ⟨b, hb, e.symm⟩) h.1
+    · exact absurd (List.mem_map.2 ⟨a, ha, e⟩) h.1
+    · exact ih h.2 ha hb
+
+/-- what the table must say about a node for `collect` to rebuild it -/
+def Spec (items : Items) (n : NTree) : Prop :=
+  lookup items (some n.id) = if n.kids = [] then none else some (some n.id, dictOf n.kids)
+
+theorem spec_final (ts : List NTree) (hids : ((nodesL ts).map NTree.id).Nodup) (n : Nat)
+    (hn : depthL ts ≤ n + 1) (m : NTree) (hm : m ∈ nodesL ts) :
+    Spec ((setAll (allE n ts) []).set none (dictOf ts)) m := by
+  unfold Spec
+  rw [lookup_set, if_neg (by simp)]
+  rcases lookup_setAll_cases (allE n ts) m.id [] with ⟨d', hmem, hl⟩ | ⟨hno, hl⟩
+  · obtain ⟨m', hm', hne, he⟩ := allE_sound n ts _ hmem
+    simp only [Prod.mk.injEq] at he
+    have : m = m' := eq_of_nodup_map_id _ hids m m' hm hm' he.1
+    subst this
+    rw [hl, if_neg hne, he.2]
+  · by_cases hk : m.kids = []
+    · rw [hl, if_pos hk]; rfl
+    · exact absurd rfl (hno _ (allE_complete ts m hm hk n hn))
+
+theorem cut0_eq (t : NTree) : cut 0 t = .node t.id t.height [] := by
+  cases t; rfl
+
+theorem collect_eq (items : Items) (fuel : Nat) : ∀ (ts : List NTree),
+    (∀ t ∈ ts, AllT (Spec items) t) → collect items fuel (dictOf ts) = ts.map (cut fuel) := by
+  induction fuel with
+  | zero =>
+    intro ts _
+    simp [collect, dictOf, cut0_eq]
+  | succ fuel ih =>
+    intro ts hts
+    rw [collect, dictOf, List.map_map]
+    apply List.map_congr_left
+    intro t ht
+    match t, hts t ht with
+    | .node i h ks, hs =>
+      rw [AllT_node] at hs
+      have h1 : lookup items (some i) = if ks = [] then none else some (some i, dictOf ks) := hs.1
+      simp only [Function.comp, NTree.id, NTree.height]
+      show (match lookup items (some i) with
+        | some e => NTree.node i h (collect items fuel e.2)
+        | none => NTree.node i h []) = _
+      rw [h1]
+      by_cases hk : ks = []
+      · subst hk; simp [cut]
+      · simp only [if_neg hk]
+        rw [ih ks hs.2, cut]
+
+/-- 5. the step-by-step model of `parse_newick` reads back every printed forest whose identifiers are
+    pairwise distinct and whose height texts are well formed and contain no `':'` -/
+theorem _root_.parseImpl_print (ts : List NTree) (h : GoodL ts)
+    (hids : ((nodesL ts).map NTree.id).Nodup)
+    (hcolon : ∀ n ∈ nodesL ts, ∀ c ∈ n.height.toList, c ≠ ':') :
+    parseImpl (printForest ts) = some ts := by
+  have hW : ∀ n ∈ nodesL ts, WFn n := by
+    intro n hn
+    obtain ⟨k, hk, hnk⟩ := (mem_nodesL ts n).1 hn
+    refine ⟨good_nodes k ((GoodL_iff ts).1 h k hk) n hnk, hcolon n hn, ?_⟩
+    exact kids_nodup k (List.Nodup.sublist ((nodesT_sublist ts k hk).map _) hids) n hnk
+  have hA : ∀ k ∈ ts, AllT WFn k := fun k hk =>
+    AllT_of_nodes _ k (fun n hn => hW n (mem_nodesL_of_mem ts k hk n hn))
+  have hAL : AllL WFn ts := (AllL_iff _ _).2 hA
+  have hroot : (ts.map NTree.id).Nodup := List.Nodup.sublist ((kids_sublist ts).map _) hids
+  obtain ⟨n, hn⟩ : ∃ n, max 1 (depthL ts) = n + 1 := ⟨max 1 (depthL ts) - 1, by omega⟩
+  have hF : (printForest ts).toList = F n ts := by
+    rw [printForest_eq, F]
+    have : (ts.map fun t => P (cut n t)) = (ts.map (cut n)).map P := by simp
+    rw [this, cutL_id ts n (by omega)]
+  have hS : ∀ t ∈ ts, AllT (Spec ((setAll (allE n ts) []).set none (dictOf ts))) t := fun t ht =>
+    AllT_of_nodes _ t (fun m hm =>
+      spec_final ts hids n (by omega) m (mem_nodesL_of_mem ts t ht m hm))
+  unfold parseImpl
+  simp only []
+  rw [maxLevel_printForest ts hAL, hn, hF, levels_fold ts hA hroot n []]
+  simp only [Option.bind_eq_bind, Option.bind_some]
+  have hfind : ((setAll (allE n ts) []).set none (dictOf ts)).find? (fun e => e.1 == none)
+      = some (none, dictOf ts) := by
+    have := lookup_set (setAll (allE n ts) []) none none (dictOf ts)
+    rwa [if_pos rfl] at this
+  rw [hfind]
+  simp only [Option.bind_some]
+  rw [collect_eq _ _ ts hS, cutL_id ts (n + 1) (by omega)]
+  rfl
+
+mutual
+theorem toNTree_nodes_ids (val : Nat → Int) (fb : Nat) : (t : Tree) →
+    (nodesT (toNTree val fb t)).map NTree.id = (Tree.pre t).map Tree.id
+  | .node i o ks => by
+    rw [toNTree, nodesT, Tree.pre, List.map_cons, List.map_cons, toNTreeL_nodes_ids val fb ks]
+    rfl
+theorem toNTreeL_nodes_ids (val : Nat → Int) (fb : Nat) : (ts : List Tree) →
+    (nodesL (toNTreeL val fb ts)).map NTree.id = (Tree.preL ts).map Tree.id
+  | [] => by rw [toNTreeL, nodesL, Tree.preL]; rfl
+  | t :: ts => by
+    rw [toNTreeL, nodesL, Tree.preL, List.map_append, List.map_append,
+      toNTree_nodes_ids val fb t, toNTreeL_nodes_ids val fb ts]
+end
+
+mutual
+theorem toNTree_nodes_heights (val : Nat → Int) (fb : Nat) : (t : Tree) →
+    ∀ n ∈ nodesT (toNTree val fb t), ∃ k, n.height = fmt3 k fb
+  | .node i o ks => by
+    intro n hn
+    rw [toNTree, nodesT, List.mem_cons] at hn
+    rcases hn with rfl | hn
+    · exact ⟨_, rfl⟩
+    · exact toNTreeL_nodes_heights val fb ks n hn
+theorem toNTreeL_nodes_heights (val : Nat → Int) (fb : Nat) : (ts : List Tree) →
+    ∀ n ∈ nodesL (toNTreeL val fb ts), ∃ k, n.height = fmt3 k fb
+  | [] => by intro n hn; rw [toNTreeL, nodesL] at hn; simp at hn
+  | t :: ts => by
+    intro n hn
+    rw [toNTreeL, nodesL, List.mem_append] at hn
+    rcases hn with hn | hn
+    · exact toNTree_nodes_heights val fb t n hn
+    · exact toNTreeL_nodes_heights val fb ts n hn
+end
+
+/-- on the text written for a forest of structures with pairwise distinct identifiers, the
+    step-by-step model of `parse_newick` returns the printable forest (and so agrees with
+    `parseDescent`, see `parseDescent_toNewick`) -/
+theorem _root_.parseImpl_toNewick (val : Nat → Int) (fb : Nat) (f : List Tree)
+    (hids : ((nodes f).map Tree.id).Nodup) :
+    parseImpl (toNewick val fb f) = some (toNTreeL val fb f) := by
+  apply parseImpl_print _ (toNTreeL_good val fb f)
+  · rw [toNTreeL_nodes_ids]; exact hids
+  · intro n hn c hc
+    obtain ⟨k, hk⟩ := toNTreeL_nodes_heights val fb f n hn
+    rw [hk] at hc
+    exact fmt3_no_colon k fb c hc
+
+end NewickPf
